@@ -404,6 +404,52 @@ def run_schedule(req):
                                                "second_thread_passed_fastpath_during_scan": passed_fastpath_while_scanning[0]}}
 
 
+ALIAS = [0]
+
+
+def run_alias(req):
+    """a module that has both kinds of glue and is in sys.modules under two names, the second name coming first (the module
+    registered an alias for itself in its own body and importlib put the real name back at the end; or the real name
+    was removed and re-inserted): the module's own glue runs, once; the built-in glue for it never"""
+    obs = []
+    for order in ("alias_first", "real_first", "alias_only_then_real"):
+        ALIAS[0] += 1
+        name = "valias_%d" % ALIAS[0]
+        log = []
+        m = types.ModuleType(name)
+
+        def glue(log=log, name=name):
+            log.append((name, "module"))
+        m._stackscope_install_glue_ = glue
+        _glue.builtin_glue(name)(lambda log=log, name=name: log.append((name, "builtin")))
+        try:
+            with warnings.catch_warnings(record=True) as w:
+                warnings.simplefilter("always")
+                if order == "alias_first":
+                    sys.modules[name + "_oldname"] = m
+                    sys.modules[name] = m
+                elif order == "real_first":
+                    sys.modules[name] = m
+                    sys.modules[name + "_oldname"] = m
+                else:
+                    sys.modules[name + "_oldname"] = m
+                    extract(1)
+                    sys.modules[name] = m
+                extract(1)
+                sys.modules[name + "_filler"] = types.ModuleType(name + "_filler")
+                extract(1)
+            if log != [(name, "module")]:
+                obs.append({"kind": "glue_runs_for_a_module_known_under_two_names", "order": order, "got": list(log),
+                            "exp": [[name, "module"]]})
+            if w:
+                obs.append({"kind": "warnings", "msgs": [str(x.message)[:100] for x in w]})
+        finally:
+            for n in (name, name + "_oldname", name + "_filler"):
+                sys.modules.pop(n, None)
+            _glue.builtin_glue_pending.pop(name, None)
+    return {"obs": obs[:3], "known": [], "stats": {"glue_runs": 3}}
+
+
 LAZY = [0]
 
 
@@ -547,6 +593,8 @@ def handle(req):
         return run_reentrant(req)
     if op == "glue.lazyboth":
         return run_lazyboth(req)
+    if op == "glue.alias":
+        return run_alias(req)
     if op == "glue.history":
         return run_history(req)
     if op == "glue.schedule":
